@@ -98,8 +98,10 @@ def body_opt(k, i, nested_name='N'):
             [('delete', 'v')],
             [('field', 's', 't%d' % i), ('field', 'v', float(20 + i))],
             [('class', nested_name, None, [('field', 'w', float(30 + i))]), ('field', 'v', float(40 + i))],
-            [('delete', 'v'), ('field', 'arr', [float(50 + i)]), ('field', 'v', float(60 + i))]][k]
-NBODY = 8
+            [('delete', 'v'), ('field', 'arr', [float(50 + i)]), ('field', 'v', float(60 + i))],
+            # four own entries: deleting the first one later must leave the other three in their declaration order
+            [('field', 'v', float(70 + i)), ('field', 'arr', [float(71 + i)]), ('field', 's', 'u%d' % i), ('class', nested_name, None, [('field', 'w', float(72 + i))])]][k]
+NBODY = 9
 def split_loads(stmts, k):
     return [stmts] if k == 0 or k >= len(stmts) else [stmts[:k], stmts[k:]]
 def gen_inherit(sel, tier):
@@ -113,8 +115,8 @@ def gen_inherit(sel, tier):
     return split_loads(stmts, sel('split', 2) * 2 if tier == 'quick' else sel('split', n))
 def gen_entries(sel, tier):
     """entries: A, B : A, then B re-opened (same or other base), C : B; bodies vary"""
-    stmts = [('class', 'A', None, body_opt([1, 2, 5, 6][sel('k0', 4)] if tier == 'quick' else sel('k0', NBODY), 0)), ('class', 'B', 'A', body_opt([1, 2, 3, 4, 6, 7][sel('k1', 6)] if tier == 'quick' else sel('k1', NBODY), 1)),
-             ('class', 'B', [None, 'A'][sel('rb', 2)], body_opt(sel('k2', NBODY), 2))]
+    stmts = [('class', 'A', None, body_opt([1, 2, 5, 6][sel('k0', 4)] if tier == 'quick' else sel('k0', NBODY), 0)), ('class', 'B', 'A', body_opt([1, 2, 3, 4, 6, 7, 8][sel('k1', 7)] if tier == 'quick' else sel('k1', NBODY), 1)),
+             ('class', 'B', [None, 'A'][sel('rb', 2)], body_opt(sel('k2', 8), 2))]
     if tier != 'quick': stmts.append(('class', 'C', 'B', body_opt([0, 2, 3, 4][sel('k3', 4)], 3)))
     else: stmts.append(('class', 'C', 'B', []))
     return split_loads(stmts, 2 if tier == 'quick' else sel('split', 3))
@@ -290,7 +292,7 @@ def run(ctx):
     tier = ctx['tier']; h = vmh.load(); obs = []
     funcs = sorted(x for x in h.m.DEFINED if ('confighost' in x or 'confignav' in x or 'ops_config' in x or '6config6parser' in x) and len(x) < 140)
     BOUNDS = dict(inherit='%d class statements at top level, the first named A, the others A/B%s, each with base none/A/B/C (self, forward, unknown and repeated definitions included) and a per-statement marker field plus an optional shared field v; split over one or two loads at every position' % ((3, ' (third: A/B)') if tier == 'quick' else (3, '/C')),
-                  entries='class A {..}; class B : A {..}; class B [: A] {..}; class C : B {%s}; every body one of %d variants (empty, number, number + nested array, +=, delete, string, nested class, delete-then-redefine); one or two loads' % ('' if tier == 'quick' else '..', NBODY),
+                  entries='class A {..}; class B : A {..}; class B [: A] {..}; class C : B {%s}; every body one of %d variants (empty, number, number + nested array, +=, delete, string, nested class, delete-then-redefine, four entries); one or two loads' % ('' if tier == 'quick' else '..', NBODY),
                   nested='class A { v; class N {..} }; class B|C [: A] { class <A|B|C> [: none|A|B|C] {..}; class <A|B|C> [: ..] {..} or forward declaration; [v] }; optionally the outer class re-opened with the inner class re-based; one or two loads')
     for kind in ('inherit', 'entries', 'nested'):
         oid = 'cfg.' + kind
